@@ -269,6 +269,14 @@ def rules(ck, P):
     write_complete_rules(ck, P)
     from . import c17 as _c17
     _c17.mbtiles_meta_rule(ck, P)       # the MBTiles metadata rows also carry the declared format (shared with C17)
+    # a written .versatiles container is read back (convert, pipelines) through the reader's bbox stream, which re-derives coordinates from
+    # index positions and cuts tiles out of merged chunks: every index entry must come out again (shared with C02)
+    from . import c02 as _c02
+    scans = [b for b in P.bodies if "get_bbox_tile_stream" in b["q"] and "::tests::" not in b["q"] and
+             ir.contains(b["body"], lambda y: y.get("k") == "mcall" and (y.get("q") or "").endswith("::get_block_tile_index"))]
+    if ck.anchor("R-INDEX-SCAN", "streams that scan a block's tile index", scans, 1):
+        for b in scans:
+            _c02._index_scan_rules(ck, P, b)
     # ---------------- R-WIRE
     recs = [
         ("versatiles.header", "types::file_header::FileHeader::to_blob", "types::file_header::FileHeader::from_blob", 0),
